@@ -2640,7 +2640,18 @@ def _shift_like(fname):
                 out = nd_roll(out, a, nn // 2 if fname == "FFTSHIFT" else -(nn // 2))
             out.dtype = getattr(x, "dtype", None)
             return out
-        return Num(F[fname](x.expr, ax), kind=x.kind, shape=x.shape, backend=x.backend, tag=x.tag, dtype=x.dtype)
+        # a circular shift along some axes: element indices of the other axes stay aligned (the shifted axes lose theirs)
+        axes_out = None
+        if x.axes is not None and x.shape is not None:
+            shifted = None
+            if isinstance(axes, (TupleV, ListV)):
+                shifted = [ev.concrete_int(a) for a in axes.items]
+            elif isinstance(axes, Num):
+                shifted = [ev.concrete_int(axes)]
+            if shifted is not None and all(a is not None for a in shifted):
+                nd_ = len(x.shape)
+                axes_out = [None if any(i == a % nd_ for a in shifted) else ax_ for i, ax_ in enumerate(x.axes)]
+        return Num(F[fname](x.expr, ax), kind=x.kind, shape=x.shape, axes=axes_out, backend=x.backend, tag=x.tag, dtype=x.dtype)
     return h
 
 
